@@ -92,8 +92,18 @@ class Gen:
         if self.rng.random() < 0.55:
             for _ in range(self.rng.randint(2, 8)):
                 self.op(2, 0, 1)
-            if self.rng.random() < 0.3 and len(self.bufs) > 3:
-                self.emit(2, f'"memref.dealloc"({self.bufs[-1]}) : ({T}) -> ()')
+            # local buffers are freed right after their last use (as snax-allocate places deallocs), or at the end, or never
+            for b in self.bufs[3:]:
+                r = self.rng.random()
+                uses = [i for i, l in enumerate(self.lines) if any((b + t) in l for t in (",", ")", " "))]
+                if r < 0.4 and uses:
+                    at = uses[-1]
+                    if "linalg.generic" in self.lines[at]:
+                        while self.lines[at].strip() != "}":
+                            at += 1
+                    self.lines.insert(at + 1, "  " * 2 + f'"memref.dealloc"({b}) : ({T}) -> ()')
+                elif r < 0.6:
+                    self.emit(2, f'"memref.dealloc"({b}) : ({T}) -> ()')
         else:
             for _ in range(self.rng.randint(1, 3)):
                 self.n += 1
@@ -165,7 +175,7 @@ def run(pid: str, tier: str, seed: int, selftest=False, replay=None) -> int:
         sources.append(("small:" + " ".join(toks), text, [[900001], [900002], [900003], [0, 1, 2] if un else [1], [0]]))
         n_small += 1
     rep.extra["small_scope_programs"] = n_small
-    c_bar, c_disp = [], []
+    c_bar, c_disp, c_low = [], [], []
     for name, text, argdom in sources:
         try:
             src = repo.parse(text)
@@ -199,6 +209,17 @@ def run(pid: str, tier: str, seed: int, selftest=False, replay=None) -> int:
         idisp["allocsite"] = 1
         c_disp.append({"name": name + "|dispatched", "A": ib, "B": idisp, "argdom": ad, "opqdom": [[0]], "coredom": [0, 1],
                        "extra": {"xk": xk, "ncores": 2}, "text": text, "after": str(funcs_of(d)[fname])})
+        # lowering of the barriers to runtime calls (snax-to-func): every barrier is still there, on every core and path
+        low = d.clone()
+        try:
+            repo.run_pipeline(low, "snax-to-func")
+        except Exception as e:
+            rep.violation(name + "|lowered", f"snax-to-func raised {type(e).__name__}: {str(e)[:200]}", {"source": text})
+            continue
+        ilow = image_of(funcs_of(low)[fname])
+        ilow["allocsite"] = 1
+        c_low.append({"name": name + "|lowered", "A": idisp, "B": ilow, "argdom": ad, "opqdom": [[0]], "coredom": [0, 1],
+                      "extra": {"xk": xk, "ncores": 2}, "text": text, "after": str(funcs_of(low)[fname])})
     rep.rule = (f"witnesses + {n} generated functions mixing memref.copy (data mover), linalg.generic (compute), all-core readers, allocs, deallocs, "
                 "pre-existing barriers in straight-line code, ifs and loops; through the real insert-sync-barrier (contract Barriers: only barriers are "
                 "inserted; in the sequential trace for every trip count a barrier lies between any single-core op and a later conflicting op on another "
@@ -216,7 +237,7 @@ def run(pid: str, tier: str, seed: int, selftest=False, replay=None) -> int:
     rep.extra["cluster_negative_control_finds_race"] = bool(rn.invariant_violated == "NoRaceState")
     if rn.invariant_violated != "NoRaceState":
         raise MachineryError("negative control of the cluster model did not find a race")
-    for contract, cases in (("barriers", c_bar), ("dispatch", c_disp)):
+    for contract, cases in (("barriers", c_bar), ("dispatch", c_disp), ("lowered", c_low)):
         CH = 300
         for lo in range(0, len(cases), CH):
             chunk = cases[lo:lo + CH]
